@@ -531,6 +531,10 @@ package keeper
 //@ loop 0 invariant[C01.done.member] forall q: uint32 :: hint(q) && q < i ==> isMember(recKey(message, old(attestation), q), publicKeys)
 //@ loop 0 invariant[C01.done.order]  forall q: uint32 :: hint(q) && q < i ==> ordered(message, old(attestation), q)
 //@ loop 0 invariant[C01.latest] (i == 0 ==> latestECDSA.X == nil && latestECDSA.Y == nil) && (i > 0 ==> latestECDSA.X != nil && latestECDSA.Y != nil && big(latestECDSA.X) == keyX(recKey(message, old(attestation), i - 1)) && big(latestECDSA.Y) == keyY(recKey(message, old(attestation), i - 1)))
+// The same fact for a loop that remembers the previous signer's address instead of its key (tried when the clause
+// above does not bind; prevSignerAddr is the loop-carried []byte, whatever its name).
+//@ local prevSignerAddr []byte
+//@ loop 0 invariant[C01.latest|alt] (i == 0 ==> prevSignerAddr == nil) && (i > 0 ==> prevSignerAddr != nil && prevSignerAddr == addrK(recKey(message, old(attestation), i - 1)))
 //@ loop 0 invariant[C01.tail]   hintRange(sigOff(i), 65) && forall p: uint64 :: hint(p) && p >= sigOff(i) ==> mem(attestation, p) == old(mem(attestation, p))
 //@ loop 1 over publicKeys
 //@ loop 1 invariant[C01.scan]   hint(loopidx) && loopidx >= 0 && loopidx <= len(publicKeys) && forall j: int :: hint(j) && 0 <= j && j < loopidx ==> fromHex(publicKeys[j].Attester) != recKey(message, old(attestation), i)
